@@ -262,7 +262,7 @@ func checkRequest(env *Env, w *ShardWorld, m *RefShard, qe QueryEnv, req models.
 			return
 		}
 	}
-	for id := range want.Set {
+	for id := range detRange(want.Set) {
 		if !got[id] {
 			env.Violate("wrong-answer", "composite-set", "%s: request %s: id %d belongs to the union/intersection but was not returned; got %v", where, jsonStr(full), PIDIndex(id), sortedIDs(a.Items))
 			return
